@@ -30,7 +30,7 @@ class Abort(Exception):
 
 
 class State:
-    __slots__ = ('mem', 'env', 'events', 'n', 'dyn', 'steps', 'notes')
+    __slots__ = ('mem', 'env', 'events', 'n', 'dyn', 'steps', 'notes', 'decisions')
 
     def __init__(self, env):
         self.mem = {}
@@ -40,6 +40,7 @@ class State:
         self.dyn = {}
         self.steps = 0
         self.notes = []
+        self.decisions = []
 
     def copy(self):
         s = State(self.env.copy())
@@ -49,6 +50,7 @@ class State:
         s.dyn = dict(self.dyn)
         s.steps = self.steps
         s.notes = list(self.notes)
+        s.decisions = list(self.decisions)
         return s
 
     def fresh(self, bits, hint, meta=None):
@@ -594,6 +596,7 @@ class Interp:
                         fr2 = fr if j == n - 1 else fr.copy()
                         if refine is not None and not refine(st2.env):
                             continue
+                        st2.decisions.append((d, tgt, site))
                         yield from self.exec_from(fr2, tgt, st2)
                     return
                 if k == 'assert':
